@@ -9,6 +9,8 @@ Lines (tag = regime label, dropped before the line reaches the model):
   ar_pred1 <tag> <intercept> <vec coeffs> <vec hist>      -> = <float>
   ar_pred <tag> <intercept> <vec coeffs> <h> <vec hist>   -> = <vec>
   ar_fp <tag> <p> <h> <vec data>               -> = <intercept> <vec coeffs> <pred1> <vec preds>
+  ar_refit <tag> <p> <h> <k> <vec s1> .. <vec sk>   one AR::new(p) object fitted on s1, then s2, ...; after each fit
+                                               <intercept> <vec coeffs> <vec predict(s_i, h)>  (k blocks)
 
 Oracle: see the docstrings of the check_* functions; references are exact (Python integers / fractions) or
 mpmath at 240 bits; every tolerance is an a-priori rounding bound times a calibrated constant.
@@ -182,6 +184,12 @@ def gen(rng, tier):
             add("ar_pred1 short:p%d:n%d %s %s %s" % (p, len(hist), f2h(ic), vec(co), vec(hist)), "short")
         else:
             add("ar_pred short:p%d:n%d %s %s %d %s" % (p, len(hist), f2h(ic), vec(co), rng.randint(0, 5), vec(hist)), "short")
+    for _ in range(n_acs):   # one AR object fitted on several series in turn
+        p = rng.randint(1, 8)
+        k = rng.choice([2, 2, 3])
+        h = rng.choice([1, 5, 20])
+        ss = [series(rng, size(rng, False), rng.choice(REGIMES)) for _ in range(k)]
+        add("ar_refit refit:p%d:k%d %d %d %d %s" % (p, k, p, h, k, " ".join(vec(x) for x in ss)), "refit")
     for _ in range(n_toe):
         add("toeplitz n %s" % vec([rng.normal() for _ in range(rng.randint(0, 9))]), "toeplitz")
     rng.shuffle(lines)
@@ -197,6 +205,8 @@ def corpus():
     L.append("acs corpus 5 %s" % vec(base))
     L.append("diff corpus %s" % vec([1.0, 4.0, 9.0, 16.0]))
     L.append("diff corpus-empty 0")
+    # one object fitted twice: the second fit must overwrite every trace of the first (p coefficients, not 2p)
+    L.append("ar_refit refit:c0:p2:k2 2 3 2 %s %s" % (vec(base), vec([v * v - 1.0 + 0.5 * i for i, v in enumerate(base)])))
     # F42 witness: history shorter than the order; stored coeffs [phi3, phi2, phi1] = [1/8, 1/4, 1/2], history [1]: 0.5
     L.append("ar_pred1 short:p3:n1 %s %s %s" % (f2h(0.0), vec([0.125, 0.25, 0.5]), vec([1.0])))
     return L
@@ -595,6 +605,47 @@ def oracle(lines, impl):
             if tag.startswith("pair") and F is not None:
                 pid = tag.split(":")[1]
                 pairs.setdefault(pid, {})[tag[4]] = (i, tag, data, ic, co, pr, F)
+        elif op == "ar_refit":
+            p, h, k = int(t[2]), int(t[3]), int(t[4])
+            ss, j = [], 5
+            for _ in range(k):
+                v, j = take_vec(t, j)
+                ss.append(v)
+            if p == 0 or any((not finite(v)) or len(v) <= p or len(set(v)) < 2 for v in ss):
+                continue
+            if st != "ok":
+                Fs = [FitRef(v, p) for v in ss]
+                if all(F.ok and C_YW * F.phi_tol([float(x) for x in F.phi]) < SKIP_AT for F in Fs):
+                    fails.append(Failure(i, key, "refit of order %d on %d well-conditioned series: %s" % (p, k, st)))
+                continue
+            q, blocks, okp = 0, [], True
+            try:
+                for _ in range(k):
+                    ic = h2f(toks[q])
+                    n = int(toks[q + 1])
+                    co = [h2f(x) for x in toks[q + 2:q + 2 + n]]
+                    q += 2 + n
+                    m = int(toks[q])
+                    pr = [h2f(x) for x in toks[q + 1:q + 1 + m]]
+                    q += 1 + m
+                    blocks.append((ic, co, pr))
+            except (ValueError, IndexError):
+                okp = False
+            if not okp or q != len(toks):
+                fails.append(Failure(i, key, "malformed reply %r" % rep[:120]))
+                continue
+            bad = [(a, len(b[1])) for a, b in enumerate(blocks) if len(b[1]) != p]
+            if bad:
+                fails.append(Failure(i, "ar_refit:coeff-count", "AR(%d) object fitted %d times: after fit #%d it stores %d coefficients instead of %d "
+                                     "(state of an earlier fit survives a re-fit)" % (p, k, bad[0][0] + 1, bad[0][1], p)))
+                continue
+            ic, co, pr = blocks[-1]
+            F = check_fit(ss[-1], p, ic, co, key, i, fails)
+            if len(pr) != h:
+                fails.append(Failure(i, "ar_predict:len", "predict(data, %d) returned %d forecasts" % (h, len(pr))))
+                continue
+            if finite(co):
+                check_forecasts(ic, co, ss[-1], pr, key, i, fails, "ar_refit")
         elif op in ("ar_pred1", "ar_pred"):
             ic = h2f(t[2])
             co, j = take_vec(t, 3)
